@@ -5,6 +5,6 @@ CONSTANTS
   Extra = 0
   ExtraS = 0
   AllBytes = FALSE
-  Len2 = 3
+  Len2 = 2
 INVARIANTS Facts Emit
 CHECK_DEADLOCK FALSE
